@@ -1,6 +1,6 @@
 #!/bin/bash
 # Runs the checker against the original pinned tree (d5478e5) in a scratch worktree:
-# every defect D1..D14 of DESIGN §6 must be reported there.
+# every defect D1..D15 of DESIGN §6 must be reported there.
 wt=$(mktemp -d /tmp/orig.XXXXXX); rmdir $wt
 git -C /repo worktree add -q --detach $wt d5478e5 || exit 2
 vd=$(mktemp -d /tmp/origv.XXXXXX)
